@@ -27,8 +27,8 @@ func specSubSat(cur uint64, n int) uint64 {
 //@   assume#no-nil-chunks-unordered forall i int :: len(r.unordered) > 0 && 0 <= i && i < len(r.unordered[0].chunks) ==> r.unordered[0].chunks[i] != nil && len(r.unordered[0].chunks[i].userData) <= 65535
 //@   assume#no-nil-chunks-ordered-mid forall i int :: len(r.orderedMID) > 0 && 0 <= i && i < len(r.orderedMID[0].chunks) ==> r.orderedMID[0].chunks[i] != nil && len(r.orderedMID[0].chunks[i].userData) <= 65535
 //@   assume#no-nil-chunks-unordered-mid forall i int :: len(r.unorderedMID) > 0 && 0 <= i && i < len(r.unorderedMID[0].chunks) ==> r.unorderedMID[0].chunks[i] != nil && len(r.unorderedMID[0].chunks[i].userData) <= 65535
-//@   loop 1 invariant#total nTotal >= 0 && nTotal <= 65535*rangeIdx && rangeIdx <= len(iSet.chunks) && (err == nil ==> nTotal <= len(buf))
-//@   loop 2 invariant#total nTotal >= 0 && nTotal <= 65535*rangeIdx && rangeIdx <= len(cset.chunks) && (err == nil ==> nTotal <= len(buf))
+//@   loop 1 invariant#total nTotal >= 0 && nTotal <= rangeIdx<<16 && rangeIdx <= len(iSet.chunks) && (err == nil ==> nTotal <= len(buf))
+//@   loop 2 invariant#total nTotal >= 0 && nTotal <= rangeIdx<<16 && rangeIdx <= len(cset.chunks) && (err == nil ==> nTotal <= len(buf))
 //@   ensures#failed-read-keeps-everything{C18,C11} result2 != nil ==> r.nBytes == old(r.nBytes) && r.nextSSN == old(r.nextSSN) && r.nextMID == old(r.nextMID) &&
 //@      sameSlice(r.ordered, old(r.ordered)) && sameSlice(r.unordered, old(r.unordered)) &&
 //@      sameSlice(r.orderedMID, old(r.orderedMID)) && sameSlice(r.unorderedMID, old(r.unorderedMID))
